@@ -170,6 +170,8 @@ structure Eng where
 inductive Act where
   /-- `startInstances`: `newInstance` calls the factory once and binds the result to the new instance -/
   | start
+  /-- `Engine.Run` calls the factory once more for the warm-up gun, which is bound to no instance and never shoots -/
+  | warmup
   /-- the goroutine of instance `i` moves: enters `gun.Shoot` if outside, returns from it if inside -/
   | move (i : Nat)
   deriving Repr
@@ -181,6 +183,7 @@ def toggle : Nat → List Inst → List Inst
 
 def engStep (s : Eng) : Act → Eng
   | .start => { insts := s.insts ++ [{ gun := s.nextGun, shooting := false }], nextGun := s.nextGun + 1 }
+  | .warmup => { s with nextGun := s.nextGun + 1 }
   | .move i => { s with insts := toggle i s.insts }
 
 def engRun (s : Eng) (acts : List Act) : Eng := acts.foldl engStep s
